@@ -5,10 +5,12 @@ candidate was rejected)."""
 from collections import Counter
 from vt import core, dsw, seams, explore
 
-CAP = {'quick': 2500, 'thorough': 40000}
+CAP = {'quick': 1200, 'thorough': 40000}
+BOUNDED_CAP = {'quick': 250, 'thorough': 20000}
+WALL = {'quick': 12, 'thorough': 120}     # per design and exploration; an exploration cut short is reported as incomplete
 
 
-def explore_candidates(c, tier, cap=None):
+def explore_candidates(c, tier, cap=None, bound=None):
     """-> dict(accepted Counter, rejected, none, ex Exploration, arities set, error) on a block built once."""
     import sweetpea as sp
     block = c.block
@@ -41,7 +43,8 @@ def explore_candidates(c, tier, cap=None):
         elif out[0] == 'malformed' and info['error'] is None:
             info['error'] = out
     try:
-        ex = explore.explore_choices(run, bound=None, cap=cap or CAP[tier], on_result=on_result)
+        ex = explore.explore_choices(run, bound=bound, cap=(cap or (BOUNDED_CAP[tier] if bound else CAP[tier])), on_result=on_result,
+                                    wall=WALL[tier])
     except core.HarnessError:
         raise
     except Exception as e:           # the sampler raised: C08's subject
